@@ -122,7 +122,7 @@ func (c *Client) emit(ev string, kv ...interface{}) {
 var errNames = map[int]string{
 	0x0000: "srverr", 0x000A: "protoerr", 0x0100: "autherr", 0x1000: "unavail", 0x1001: "overloaded",
 	0x1002: "boot", 0x1003: "truncate", 0x1100: "wt", 0x1200: "rt", 0x1300: "rfail", 0x1400: "funcfail",
-	0x1500: "wfail", 0x2000: "syntax", 0x2100: "unauthorized", 0x2200: "invalid", 0x2300: "configerr",
+	0x1500: "wfail", 0x1600: "funcfail", 0x2000: "syntax", 0x2100: "unauthorized", 0x2200: "invalid", 0x2300: "configerr",
 	0x2400: "alreadyexists", 0x2500: "unprepared",
 }
 
